@@ -35,6 +35,8 @@ func main() {
 		cmdSig(os.Args[2:])
 	case "repotrace":
 		cmdRepoTrace(os.Args[2:])
+	case "witness":
+		cmdWitness(os.Args[2:])
 	case "rules":
 		cmdRules(os.Args[2:])
 	default:
